@@ -480,6 +480,17 @@ def deform(case):
             st.set_p_vectors([np.array(p) for p in pown])
         st.solve_G()
         strain_outputs(fails, 'strain-resolved-', st, N, F)
+        # ... and an object that STARTS with the wrong reference, is solved, then gets the right one
+        if ok1:
+            st2 = am.defect.Strain(s1, neighbors=nl1, p_vectors=[np.array(p) @ RW.T for p in pown], theta_max=theta)
+            st2.G
+            st2.strain
+            if mode in (0, 1) and ok0:
+                st2.build_p_vectors(s0, neighbors=nl0)
+            else:
+                st2.set_p_vectors([np.array(p) for p in pown])
+            st2.solve_G()
+            strain_outputs(fails, 'strain-corrected-', st2, N, F)
         chk.note('strain-live-resolves', 1)
         d = st.asdict(['G', 'rotation', 'strain', 'invariant1', 'invariant2', 'invariant3', 'angularvelocity', 'nye'])
         for k, v in d.items():
